@@ -5,6 +5,7 @@ package vault
 import (
 	"context"
 	"fmt"
+	"os"
 	"sort"
 	"strings"
 	"testing"
@@ -21,6 +22,7 @@ path "rb/*" { capabilities = ["create","read","update","delete","list"] }
 path "ns1/rb/*" { capabilities = ["create","read","update","delete","list"] }
 path "auth/token/create" { capabilities = ["update"] }
 path "auth/token/create/*" { capabilities = ["update"] }
+path "auth/token/lookup-self" { capabilities = ["read"] }
 `
 
 type c06World struct {
@@ -32,6 +34,9 @@ type c06World struct {
 	parent string // service token with policy c06
 	limTok string // use-limited token (num_uses 5)
 	batchTok string // non-orphan batch token, child of parent
+	lat      *c06Lat // latency layer below the recording backend (forks only)
+	random   *c06Shape // the token shape drawn for this case ("create-random")
+	neverExpiring bool // the token of the last "usable-token-without-lease" verdict of invariant() is a root token that never expires
 }
 
 func c06Opts(hub *recHub, transactional bool) coreOpts {
@@ -42,6 +47,7 @@ func c06Opts(hub *recHub, transactional bool) coreOpts {
 
 func newC06World(t *testing.T, transactional bool) *c06World {
 	hub := newRecHub()
+	hub.loginAuth = c06LoginAuth
 	tc := mustBoot(t, c06Opts(hub, transactional))
 	hub.physSeq = tc.rec.Seq
 	tc.mount("rb", "recbe", nil)
@@ -84,27 +90,148 @@ func newC06World(t *testing.T, transactional bool) *c06World {
 }
 
 func (w *c06World) fork() *c06World {
-	n, err := w.tc.restartOn(w.tc.rec.Fork(w.tc.opts.transactional))
+	nb := w.tc.rec.Fork(w.tc.opts.transactional)
+	lat := c06InstallLat(nb)
+	n, err := w.tc.restartOn(nb)
 	if err != nil {
 		w.t.Fatalf("harness: fork: %v", err)
 	}
+	// the leases are restored in the background after the unseal: the request starts on a quiet core
+	n.quiesceRestore()
 	w.hub.physSeq = n.rec.Seq
 	// secrets issued on another copy of the store are not this copy's concern
 	w.hub.mu.Lock()
 	w.hub.issued, w.hub.revoked = map[string]bool{}, map[string]int{}
-	w.hub.mu.Unlock()
-	w.hub.mu.Lock()
 	w.hub.misrouted = nil
 	w.hub.mu.Unlock()
-	return &c06World{t: w.t, tc: n, hub: w.hub, parent: w.parent, limTok: w.limTok, batchTok: w.batchTok, ns1: w.ns1, nsTok: w.nsTok}
+	return &c06World{t: w.t, tc: n, hub: w.hub, parent: w.parent, limTok: w.limTok, batchTok: w.batchTok, ns1: w.ns1, nsTok: w.nsTok, lat: lat, random: w.random}
 }
 
-var c06Kinds = []string{"secret", "secret-odd-path", "secret-batch-child", "secret-in-namespace", "secret-in-namespace-parent-token", "secret-wrapped", "secret-uselimited", "login", "login-wrapped", "create", "create-role", "create-role-path-suffix", "create-orphan", "create-wrapped"}
+// c06LoginAuth: what the recording credential backend answers to a login, by the "shape" the login asks for.
+func c06LoginAuth(req *logical.Request) *logical.Auth {
+	switch req.Data["shape"] {
+	case "periodic":
+		return &logical.Auth{Policies: []string{"default"}, Period: time.Hour, LeaseOptions: logical.LeaseOptions{TTL: time.Hour, Renewable: true}, DisplayName: "rec"}
+	case "num-uses":
+		return &logical.Auth{Policies: []string{"default"}, NumUses: 3, ExplicitMaxTTL: 2 * time.Hour, LeaseOptions: logical.LeaseOptions{TTL: time.Hour, Renewable: true}, DisplayName: "rec"}
+	}
+	return nil
+}
+
+// c06Shape is one shape of a token creation: who asks (the root token; the service token "parent" with the policies
+// default+c06; the token of the child namespace), at which endpoint, with which parameters.
+type c06Shape struct {
+	Creator string // "root" | "parent" | "ns" (the child namespace's token, in the child namespace) | "root-in-ns" (the root token, in the child namespace)
+	Path    string
+	Data    map[string]any
+	Wrap    bool
+}
+
+func (s c06Shape) String() string { return fmt.Sprintf("%s %s %v wrap=%v", s.Creator, s.Path, s.Data, s.Wrap) }
+
+// The token shapes that every case enumerates. Root-policy tokens without a ttl never expire (their lease record has
+// no expiry time; a lookup accepts them even without a lease), all others expire.
+var c06ShapeKinds = []string{"create-root-nonexpiring", "create-root-ttl", "create-orphan-root-nonexpiring", "create-root-no-parent-nonexpiring",
+	"create-root-explicit-max", "create-periodic", "create-orphan-periodic", "create-explicit-max-num-uses", "create-no-default-policy", "create-in-namespace", "create-root-in-namespace"}
+
+var c06TokenShapes = map[string]c06Shape{
+	"create-root-nonexpiring":           {Creator: "root", Path: "auth/token/create", Data: map[string]any{"policies": []string{"root"}}},
+	"create-root-ttl":                   {Creator: "root", Path: "auth/token/create", Data: map[string]any{"policies": []string{"root"}, "ttl": "20m"}},
+	"create-orphan-root-nonexpiring":    {Creator: "root", Path: "auth/token/create-orphan", Data: map[string]any{"policies": []string{"root"}}},
+	"create-root-no-parent-nonexpiring": {Creator: "root", Path: "auth/token/create", Data: map[string]any{"policies": []string{"root"}, "no_parent": true, "display_name": "ops"}},
+	"create-root-explicit-max":          {Creator: "root", Path: "auth/token/create", Data: map[string]any{"policies": []string{"root"}, "explicit_max_ttl": "1h"}},
+	"create-periodic":                   {Creator: "root", Path: "auth/token/create", Data: map[string]any{"policies": []string{"c06"}, "period": "1h"}},
+	"create-orphan-periodic":            {Creator: "root", Path: "auth/token/create-orphan", Data: map[string]any{"policies": []string{"default"}, "period": "30m", "ttl": "10m"}},
+	"create-explicit-max-num-uses":      {Creator: "parent", Path: "auth/token/create", Data: map[string]any{"ttl": "20m", "explicit_max_ttl": "1h", "num_uses": 3}},
+	"create-no-default-policy":          {Creator: "parent", Path: "auth/token/create", Data: map[string]any{"policies": []string{"c06"}, "no_default_policy": true, "renewable": false}},
+	"create-in-namespace":               {Creator: "ns", Path: "auth/token/create", Data: map[string]any{"ttl": "20m"}},
+	"create-root-in-namespace":          {Creator: "root-in-ns", Path: "auth/token/create", Data: map[string]any{"policies": []string{"default"}, "ttl": "20m"}},
+}
+
+// c06DrawShape composes a token shape from the parameter space; only combinations the token store accepts: a non-root
+// creator asks for a subset of its own policies, and only the root token uses create-orphan, no_parent, period and the
+// root policy; a role decides orphanhood, period and the admissible policies itself.
+func c06DrawShape(rt *rapid.T) *c06Shape {
+	s := &c06Shape{Creator: "parent", Path: "auth/token/create", Data: map[string]any{}}
+	byRoot := rapid.Bool().Draw(rt, "shapeByRoot")
+	if byRoot {
+		s.Creator = "root"
+	}
+	switch ep := fairIndex(rt, "shapeEndpoint", 3); {
+	case ep == 1 && byRoot:
+		s.Path = "auth/token/create-orphan"
+	case ep == 2:
+		s.Path = "auth/token/create/r1"
+	}
+	role := strings.HasPrefix(s.Path, "auth/token/create/")
+	pols := [][]string{nil, {"c06"}, {"default"}, {"default", "c06"}, {"root"}}
+	pi := fairIndex(rt, "shapePolicies", len(pols))
+	if pols[pi] != nil && (pi != 4 || (byRoot && !role)) {
+		s.Data["policies"] = pols[pi]
+	} else if role {
+		s.Data["policies"] = []string{"c06"}
+	}
+	if rapid.Bool().Draw(rt, "shapeTTL") {
+		s.Data["ttl"] = []string{"20m", "45s", "3h"}[fairIndex(rt, "shapeTTLValue", 3)]
+	}
+	if rapid.Bool().Draw(rt, "shapeExplicitMax") {
+		s.Data["explicit_max_ttl"] = "4h"
+	}
+	if byRoot && !role && fairIndex(rt, "shapePeriod", 3) == 0 {
+		s.Data["period"] = "1h"
+	}
+	if fairIndex(rt, "shapeNumUses", 3) == 0 {
+		s.Data["num_uses"] = 2
+	}
+	if byRoot && !role && fairIndex(rt, "shapeNoParent", 3) == 0 {
+		s.Data["no_parent"] = true
+	}
+	if rapid.Bool().Draw(rt, "shapeNoDefault") {
+		s.Data["no_default_policy"] = true
+	}
+	if fairIndex(rt, "shapeWrap", 4) == 0 {
+		s.Wrap = true
+	}
+	return s
+}
+
+func (w *c06World) requestShape(base context.Context, s c06Shape) rr {
+	tc := &ctxCore{tcore: w.tc, base: base}
+	data := map[string]any{}
+	for k, v := range s.Data {
+		data[k] = v
+	}
+	req := &logical.Request{Operation: logical.UpdateOperation, Path: s.Path, Data: data}
+	if s.Wrap {
+		req.WrapInfo = &logical.RequestWrapInfo{TTL: 5 * time.Minute}
+	}
+	switch s.Creator {
+	case "root":
+		req.ClientToken = w.tc.root
+	case "parent":
+		req.ClientToken = w.parent
+	case "ns":
+		req.ClientToken = w.nsTok
+		return tc.doCtx(namespace.ContextWithNamespace(base, w.ns1), req)
+	case "root-in-ns":
+		req.ClientToken = w.tc.root
+		return tc.doCtx(namespace.ContextWithNamespace(base, w.ns1), req)
+	}
+	return tc.do(req)
+}
+
+var c06Kinds = []string{"secret", "secret-odd-path", "secret-batch-child", "secret-in-namespace", "secret-in-namespace-parent-token", "secret-wrapped", "secret-uselimited", "login", "login-wrapped", "login-periodic", "login-num-uses", "create", "create-role", "create-role-path-suffix", "create-orphan", "create-wrapped"}
 
 func (w *c06World) request(kind string) rr { return w.requestCtx(kind, w.tc.ctx) }
 
 // requestCtx issues the request under the given parent context (a cancellable one models a client that goes away).
 func (w *c06World) requestCtx(kind string, base context.Context) rr {
+	if s, ok := c06TokenShapes[kind]; ok {
+		return w.requestShape(base, s)
+	}
+	if kind == "create-random" {
+		return w.requestShape(base, *w.random)
+	}
 	tc := &ctxCore{tcore: w.tc, base: base}
 	wrap := func(req *logical.Request) *logical.Request {
 		req.WrapInfo = &logical.RequestWrapInfo{TTL: 5 * time.Minute}
@@ -129,6 +256,10 @@ func (w *c06World) requestCtx(kind string, base context.Context) rr {
 		return tc.do(&logical.Request{Operation: logical.ReadOperation, Path: "rb/creds/a", ClientToken: w.limTok})
 	case "login":
 		return tc.do(&logical.Request{Operation: logical.UpdateOperation, Path: "auth/ra/login", Data: map[string]any{"user": "u"}})
+	case "login-periodic":
+		return tc.do(&logical.Request{Operation: logical.UpdateOperation, Path: "auth/ra/login", Data: map[string]any{"user": "u", "shape": "periodic"}})
+	case "login-num-uses":
+		return tc.do(&logical.Request{Operation: logical.UpdateOperation, Path: "auth/ra/login", Data: map[string]any{"user": "u", "shape": "num-uses"}})
 	case "login-wrapped":
 		return tc.do(wrap(&logical.Request{Operation: logical.UpdateOperation, Path: "auth/ra/login", Data: map[string]any{"user": "u"}}))
 	case "create":
@@ -193,15 +324,18 @@ func (w *c06World) invariant(tokensBefore map[string]bool) (string, string) {
 		}
 		isNew := !tokensBefore[k]
 		rootNoExpiry := te.TTL == 0 && len(te.Policies) == 1 && te.Policies[0] == "root"
-		if rootNoExpiry {
+		if rootNoExpiry && !isNew {
+			// a root token that never expires need not have a lease (the one made at initialisation has none); one that
+			// a request of this case created has a lease record like every other created token
 			continue
 		}
-		usable := w.tc.tokenAlive(te.ID)
+		usable := w.alive(te)
 		le, err := exp.FetchLeaseTimesByToken(ctx, te)
 		if err != nil {
 			continue
 		}
 		if usable && le == nil {
+			w.neverExpiring = rootNoExpiry
 			return "usable-token-without-lease", fmt.Sprintf("token entry %s (new=%v, path %s) is usable but has no lease record", verifx.Trunc(salted, 12), isNew, te.Path)
 		}
 		// token index -> lease entries
@@ -234,7 +368,7 @@ func (w *c06World) invariant(tokensBefore map[string]bool) (string, string) {
 				covered[id] = true
 			}
 		}
-		if l.ClientToken != "" && l.ClientTokenType != logical.TokenTypeBatch {
+		if l.Auth == nil && l.ClientToken != "" && l.ClientTokenType != logical.TokenTypeBatch { // the lease of a token (Auth) has no index entry
 			te, err := ts.Lookup(ctx, l.ClientToken)
 			if err != nil || te == nil {
 				continue
@@ -270,7 +404,7 @@ func (w *c06World) invariant(tokensBefore map[string]bool) (string, string) {
 			}
 			// the index entry lives with the TOKEN (which may belong to the parent namespace), where the revocation of
 			// the token looks for it
-			if l.ClientToken != "" && l.ClientTokenType != logical.TokenTypeBatch {
+			if l.Auth == nil && l.ClientToken != "" && l.ClientTokenType != logical.TokenTypeBatch { // the lease of a token (Auth) has no index entry
 				te, err := ts.Lookup(ctx, l.ClientToken)
 				if err != nil || te == nil {
 					continue
@@ -312,142 +446,252 @@ func (w *c06World) invariant(tokensBefore map[string]bool) (string, string) {
 }
 
 func TestVerif_C06_LeaseFaults(t *testing.T) {
-	rec := verifx.NewRecorder("C06", "lease-faults", "request shapes {leased secret (plain / response-wrapped / with a use-limited token), login through a recording credential backend (plain / wrapped), auth/token/create (plain / role / create-orphan / wrapped)}; dry run counts the storage operations n of the request; for every k<=n (quick: up to 16 evenly spread) the k-th storage operation of the request goroutine fails once on a fresh copy; oracle: a handed-out secret has lease + token index, a handed-out token is usable and leased; after an error no usable token lacks a lease, no partial lease/index records, every generated secret is revoked at the backend or covered by a lease; also crash after every prefix of the request's writes followed by restart; for the secret-generating shapes also 'the client goes away': the request context is cancelled when the k-th storage operation starts (that and all later operations under the request context fail, and the recording backend refuses a revocation that arrives with a cancelled context) - there only 'every generated secret is revoked at the backend or covered by a lease record' and 'no usable token without lease' are asserted; non-trivial = the fault (or crash) fell after the first write of the request or after the backend had produced the secret/auth")
+	rec := verifx.NewRecorder("C06", "lease-faults", "request shapes {leased secret (plain / odd path / batch child / child namespace / response-wrapped / use-limited token), login through a recording credential backend (plain / wrapped / periodic / use-limited), auth/token/create (plain / role / role with path suffix / create-orphan / wrapped), and a table of token shapes (root-policy child without ttl = never expiring, with and without parent, through create-orphan; root policy with ttl or explicit maximum; periodic; use-limited with explicit maximum; no default policy; created in a child namespace by its own token and by the root token) plus one token shape per case composed from the parameter space (creator, endpoint, policies, ttl, explicit maximum, period, uses, no_parent, no_default_policy, wrapping)}; a dry run lists the storage operations of the request - the operations that start inside the request's time window on the request goroutine or on a goroutine the request started (directly or transitively) - and names each by (kind, class of key, occurrence); on a fresh copy per operation that operation fails once: every write of the request, and the reads thinned to 16 (table shapes 8) in the quick tier; for every write once more under a storage latency spike: every Put of the request on a lease or token record is accepted but held until the request has returned or the request has started no other storage operation for 10 ms (at most 100 ms), and completes regardless of the request context; oracle when the request has returned and every operation it started has come back: a handed-out secret has lease + token index, a handed-out token is usable and leased; after an error no usable token lacks a lease - judged for every token record the request ADDED to the raw storage listing (entry, accessor index, parent index, all namespaces; never-expiring root tokens included), no lease record of a secret whose revocation the backend has seen, no index record naming a lease without record, no accessor/parent record without token entry, lease and index records mutually consistent, every generated secret revoked at the backend or covered by a lease; also crash after every prefix of the request's writes followed by restart; for the secret-generating shapes also 'the client goes away': the request context is cancelled when the k-th storage operation starts; non-trivial = the fault (or crash) fell after the first write of the request or after the backend had produced the secret/auth")
 	defer rec.Flush()
 	rapid.Check(t, func(rt *rapid.T) {
 		txn := rapid.Bool().Draw(rt, "transactionalStorage")
 		phase := rapid.IntRange(0, 7).Draw(rt, "phase")
-		// every request shape is enumerated in every case; rapid only varies the storage flavour and which
-		// fault positions are sampled when the quick tier thins them
-		for _, kind := range c06Kinds {
-			c06RunKind(t, rt, rec, txn, kind, phase)
+		random := c06DrawShape(rt)
+		// every request shape is enumerated in every case; rapid varies the storage flavour, which read positions
+		// are sampled when the quick tier thins them, and one more token shape
+		kinds := append(append([]string{}, c06Kinds...), c06ShapeKinds...)
+		kinds = append(kinds, "create-random")
+		// verdicts that are judged only after every shape has been enumerated (so that one of them does not keep the
+		// rest of the space from being examined)
+		var deferred []func()
+		for _, kind := range kinds {
+			c06RunKind(t, rt, rec, txn, kind, phase, random, &deferred)
+		}
+		for _, f := range deferred {
+			f()
 		}
 	})
 }
 
-func c06RunKind(t *testing.T, rt *rapid.T, rec *verifx.Recorder, txn bool, kind string, phase int) {
-	{
-		base := newC06World(t, txn)
-		defer func() { base.tc.shutdown() }()
-		// dry run
-		dry := base.fork()
-		tokensBefore := dry.keysUnder("sys/token/id/")
-		seq0, mut0 := dry.tc.rec.Seq(), dry.tc.rec.MutationCount()
-		g := verifx.GoID()
-		r := dry.request(kind)
-		nOps := 0
-		for _, o := range dry.tc.rec.OpsSince(seq0) {
-			if o.G == g {
-				nOps++
-			}
+// runInjected performs the request with an injector watching (and possibly failing / delaying) its storage operations;
+// returns when the request has returned and everything it started has come back from the store.
+func (w *c06World) runInjected(kind string, base context.Context, setup func(in *c06Inj)) (rr, *c06Inj) {
+	in := newC06Inj(verifx.GoID())
+	if setup != nil {
+		setup(in)
+	}
+	w.lat.cur.Store(in)
+	w.tc.rec.SetFault(in.fault)
+	res := w.requestCtx(kind, base)
+	in.finish()
+	w.tc.rec.SetFault(nil)
+	w.lat.cur.Store(nil)
+	return res, in
+}
+
+// c06PickTargets: every write of the request, and the other operations thinned to maxOther (shifted by phase).
+func c06PickTargets(ops []c06OpID, maxOther, phase int) []c06OpID {
+	var elig []c06OpID
+	for _, o := range ops {
+		if o.Kind != "rollback" { // rollbacks of storage transactions are never failed: they are the cleanup path
+			elig = append(elig, o)
 		}
-		nMut := dry.tc.rec.MutationCount() - mut0
-		dryRec := dry.tc.rec
-		if !r.ok() {
-			// a request refused without any fault: whatever the reason, nothing generated may be left behind
-			if sig, msg := dry.invariant(tokensBefore); sig != "" {
-				dry.tc.shutdown()
-				rec.Violation(rt, sig+":request-refused-without-fault", map[string]any{"kind": kind, "answer": r.String()}, "the request %s failed without any fault (%v) and: %s", kind, r, msg)
-				return
-			}
-			dry.tc.shutdown()
-			if kind != "secret-odd-path" {
-				t.Fatalf("harness: fault-free request %s failed: %v", kind, r)
-			}
-			rec.Class("odd-path-refused-cleanly", 1)
-			return
+	}
+	pick := map[int]bool{}
+	for _, k := range pickKsPhase(len(elig), maxOther, phase) {
+		pick[k-1] = true
+	}
+	var out []c06OpID
+	for i, o := range elig {
+		if o.Write || pick[i] {
+			out = append(out, o)
 		}
-		if sig, msg := c06Outcome(dry, kind, r); sig != "" {
-			dry.tc.shutdown()
-			rec.Violation(rt, sig+":no-fault", map[string]any{"kind": kind}, "%s", msg)
-			return
+	}
+	return out
+}
+
+func c06HasCredentials(r rr) bool {
+	return r.resp != nil && (r.resp.Secret != nil && r.resp.Secret.LeaseID != "" || r.resp.Auth != nil && r.resp.Auth.ClientToken != "" || r.resp.WrapInfo != nil && r.resp.WrapInfo.Token != "")
+}
+
+func c06RunKind(t *testing.T, rt *rapid.T, rec *verifx.Recorder, txn bool, kind string, phase int, random *c06Shape, deferred *[]func()) {
+	base := newC06World(t, txn)
+	base.random = random
+	defer func() { base.tc.shutdown() }()
+	_, tableShape := c06TokenShapes[kind]
+	shapeDesc := kind
+	if kind == "create-random" {
+		shapeDesc = "create-random: " + random.String()
+	}
+	// dry run
+	dry := base.fork()
+	tokensBefore := dry.keysUnder("sys/token/id/")
+	recsBefore := dry.records()
+	mut0 := dry.tc.rec.MutationCount()
+	r, dryInj := dry.runInjected(kind, dry.tc.ctx, nil)
+	ops := dryInj.opList()
+	nOps := len(ops)
+	nMut := dry.tc.rec.MutationCount() - mut0
+	dryRec := dry.tc.rec
+	if dryInj.helperOps > 0 {
+		rec.Class("request-with-helper-goroutines", 1)
+	}
+	if os.Getenv("C06_DEBUG") != "" {
+		var l []string
+		for _, o := range ops {
+			l = append(l, o.String())
 		}
-		if sig, msg := dry.invariant(tokensBefore); sig != "" {
-			dry.tc.shutdown()
-			rec.Violation(rt, sig+":no-fault", map[string]any{"kind": kind}, "%s", msg)
-			return
+		fmt.Fprintf(os.Stderr, "C06_DEBUG ops of %s (txn=%v, unattributed in window %d): %v\n", shapeDesc, txn, dryInj.unattributed, l)
+	}
+	if !r.ok() {
+		// a request refused without any fault: whatever the reason, nothing generated may be left behind
+		sig, msg, _ := dry.leftovers(recsBefore, !c06HasCredentials(r))
+		if sig == "" {
+			sig, msg = dry.invariant(tokensBefore)
 		}
 		dry.tc.shutdown()
+		if sig != "" {
+			rec.Violation(rt, sig+":request-refused-without-fault", map[string]any{"kind": shapeDesc, "answer": r.String()}, "the request %s failed without any fault (%v) and: %s", shapeDesc, r, msg)
+			return
+		}
+		if kind != "secret-odd-path" && kind != "create-random" {
+			t.Fatalf("harness: fault-free request %s failed: %v", kind, r)
+		}
+		rec.Class(kind+"-refused-cleanly", 1)
+		return
+	}
+	sig, msg := c06Outcome(dry, kind, r)
+	if sig == "" {
+		sig, msg, _ = dry.leftovers(recsBefore, false)
+	}
+	if sig == "" {
+		sig, msg = dry.invariant(tokensBefore)
+	}
+	dry.tc.shutdown()
+	if sig != "" {
+		rec.Violation(rt, sig+":no-fault", map[string]any{"kind": shapeDesc}, "%s", msg)
+		return
+	}
 
-		for _, k := range pickKsPhase(nOps, verifx.Scale(16, 1<<30), phase) {
+	// one storage operation of the request fails; spike: additionally the request's writes of lease and token records
+	// complete late
+	faultRun := func(target c06OpID, spike bool) {
+		w := base.fork()
+		defer func() { w.tc.shutdown() }()
+		seqStart := w.tc.rec.Seq()
+		callsBefore := len(w.hub.handlerCalls())
+		tg := target
+		res, in := w.runInjected(kind, w.tc.ctx, func(in *c06Inj) { in.target, in.spike = &tg, spike })
+		hit := in.hit
+		what, afterWrite, afterBackend := "none", false, false
+		if hit != nil {
+			what = hit.Kind + " " + c06KeyClass(hit.Key)
+			for _, o := range w.tc.rec.OpsSince(seqStart) {
+				if o.Seq < hit.Seq && o.Err == nil && (o.Kind == "put" || o.Kind == "delete") {
+					afterWrite = true
+				}
+			}
+			for _, c := range w.hub.handlerCalls()[callsBefore:] {
+				if !c.Revoke && c.Enter <= hit.Seq {
+					afterBackend = true
+				}
+			}
+		}
+		var oplog []string
+		for _, o := range w.tc.rec.OpsSince(seqStart) {
+			if len(oplog) < 120 {
+				e := ""
+				if o.Err != nil {
+					e = " ERR"
+				}
+				oplog = append(oplog, fmt.Sprintf("%s %s%s", o.Kind, c06KeyClass(o.Key), e))
+			}
+		}
+		mode := "fault"
+		if spike {
+			mode = "fault+latency-spike"
+		}
+		detail := map[string]any{"request": shapeDesc, "failed_operation": target.String(), "of_ops": nOps, "failed_op": what, "result": res.String(), "transactional": txn, "storage_ops": oplog,
+			"latency_spike": spike, "writes_held": in.held, "writes_completed_after_return": in.heldLate, "ops_on_helper_goroutines": in.helperOps}
+		rec.Case(kind+":"+mode, afterWrite || afterBackend, verifx.Digest(shapeDesc, txn, target.Cls, target.Occ, what, spike), func() any { return detail })
+		if afterBackend {
+			rec.Class("fault-after-backend-produced", 1)
+		}
+		if in.heldLate > 0 {
+			rec.Class("write-completed-after-the-request-returned", 1)
+		}
+		if in.unattributed > 0 {
+			rec.Class("background-operations-in-window", 1)
+		}
+		if res.ok() {
+			if sig, msg := c06Outcome(w, kind, res); sig != "" {
+				rec.Violation(rt, sig+":after-fault", detail, "%s (request %s, %s at storage operation %s of %d)", msg, shapeDesc, mode, target, nOps)
+				return
+			}
+		} else if c06HasCredentials(res) {
+			rec.Class("error-with-credentials-in-response", 1)
+		}
+		failed := !res.ok() && !c06HasCredentials(res)
+		// what the request added to the raw records (judged first: the checks below look tokens up, which cleans up)
+		var sig, msg string
+		var rem []c06Remnant
+		for i := 0; i < 40; i++ {
+			sig, msg, rem = w.leftovers(recsBefore, failed)
+			if sig == "" {
+				break
+			}
+			time.Sleep(10 * time.Millisecond)
+		}
+		if sig != "" {
+			rec.Violation(rt, sig+":after-fault", detail, "%s (request %s returned %v, %s at storage operation %s of %d = %s)", msg, shapeDesc, res, mode, target, nOps, what)
+			return
+		}
+		for _, r := range rem {
+			rec.Class("remnant:"+c06KeyClass(r.Key), 1)
+			if os.Getenv("C06_DEBUG") != "" {
+				fmt.Fprintf(os.Stderr, "C06_DEBUG remnant after %s %s %s (txn=%v): %s %s\n", shapeDesc, mode, target, txn, c06KeyClass(r.Key), r.What)
+			}
+		}
+		// rollback of the generated secret runs synchronously in the request; give a queued revocation a moment
+		for i := 0; i < 200; i++ {
+			sig, msg = w.invariant(tokensBefore)
+			if sig != "secret-without-lease-not-revoked" {
+				break
+			}
+			time.Sleep(5 * time.Millisecond)
+		}
+		if sig != "" {
+			rec.Violation(rt, sig+":after-fault", detail, "%s (request %s returned %v, %s at storage operation %s of %d = %s)", msg, shapeDesc, res, mode, target, nOps, what)
+		}
+	}
+	maxOther := 16
+	if tableShape {
+		maxOther = 8
+	}
+	targets := c06PickTargets(ops, verifx.Scale(maxOther, 1<<30), phase)
+	for _, tg := range targets {
+		if os.Getenv("C06_DEBUG_SPIKE_ONLY") == "" {
+			faultRun(tg, false)
+		}
+	}
+	for _, tg := range targets {
+		if tg.Write || verifx.Thorough() {
+			faultRun(tg, true)
+		}
+	}
+
+	// the client goes away: the request context is cancelled when the k-th storage operation starts (that operation
+	// and everything else that honours the context then fails, including a backend revocation that is handed the
+	// request context); only for the shapes that generate a secret at a backend
+	if strings.HasPrefix(kind, "secret") {
+		for _, k := range pickKsPhase(nOps, verifx.Scale(8, 1<<30), phase+3) {
 			w := base.fork()
 			func() {
 				defer func() { w.tc.shutdown() }()
-				f, fired := verifx.FailNth(func(o *verifx.Op) bool { return o.G == g }, k)
-				seqStart := w.tc.rec.Seq()
+				cctx, cancel := context.WithCancel(w.tc.ctx)
+				defer cancel()
+				var hit *verifx.Op
+				w.hub.mu.Lock()
+				w.hub.honourCtx = true
+				w.hub.mu.Unlock()
 				callsBefore := len(w.hub.handlerCalls())
-				w.tc.rec.SetFault(f)
-				res := w.request(kind)
-				w.tc.rec.SetFault(nil)
-				hit := fired()
-				what, afterWrite, afterBackend := "none", false, false
-				if hit != nil {
-					what = hit.Kind + " " + keyClass(hit.Key)
-					for _, o := range w.tc.rec.OpsSince(seqStart) {
-						if o.Seq < hit.Seq && o.Err == nil && (o.Kind == "put" || o.Kind == "delete") {
-							afterWrite = true
-						}
-					}
-					for _, c := range w.hub.handlerCalls()[callsBefore:] {
-						if !c.Revoke && c.Enter <= hit.Seq {
-							afterBackend = true
-						}
-					}
-				}
-				var oplog []string
-				for _, o := range w.tc.rec.OpsSince(seqStart) {
-					if len(oplog) < 120 {
-						e := ""
-						if o.Err != nil {
-							e = " ERR"
-						}
-						oplog = append(oplog, fmt.Sprintf("%s %s%s", o.Kind, keyClass(o.Key), e))
-					}
-				}
-				detail := map[string]any{"request": kind, "fault_at_op": k, "of_ops": nOps, "failed_op": what, "result": res.String(), "transactional": txn, "storage_ops": oplog}
-				rec.Case(kind+":fault", afterWrite || afterBackend, verifx.Digest(kind, txn, k, what), func() any { return detail })
-				if afterBackend {
-					rec.Class("fault-after-backend-produced", 1)
-				}
-				if res.ok() {
-					if sig, msg := c06Outcome(w, kind, res); sig != "" {
-						rec.Violation(rt, sig+":after-fault", detail, "%s (request %s, fault at storage operation %d/%d = %s)", msg, kind, k, nOps, what)
-						return
-					}
-				} else if res.resp != nil && (res.resp.Secret != nil && res.resp.Secret.LeaseID != "" || res.resp.Auth != nil && res.resp.Auth.ClientToken != "") {
-					rec.Class("error-with-credentials-in-response", 1)
-				}
-				// rollback of the generated secret runs synchronously in the request; give a queued revocation a moment
-				var sig, msg string
-				for i := 0; i < 200; i++ {
-					sig, msg = w.invariant(tokensBefore)
-					if sig != "secret-without-lease-not-revoked" {
-						break
-					}
-					time.Sleep(5 * time.Millisecond)
-				}
-				if sig != "" {
-					rec.Violation(rt, sig+":after-fault", detail, "%s (request %s returned %v, fault at storage operation %d/%d = %s)", msg, kind, res, k, nOps, what)
-				}
-			}()
-		}
-		// the client goes away: the request context is cancelled when the k-th storage operation starts (that operation
-		// and everything else that honours the context then fails, including a backend revocation that is handed the
-		// request context); only for the shapes that generate a secret at a backend
-		if strings.HasPrefix(kind, "secret") {
-			for _, k := range pickKsPhase(nOps, verifx.Scale(8, 1<<30), phase+3) {
-				w := base.fork()
-				func() {
-					defer func() { w.tc.shutdown() }()
-					cctx, cancel := context.WithCancel(w.tc.ctx)
-					defer cancel()
-					n := 0
-					var hit *verifx.Op
-					w.tc.rec.SetFault(func(o *verifx.Op) error {
-						if o.G != g {
-							return nil
-						}
-						n++
+				res, _ := w.runInjected(kind, cctx, func(in *c06Inj) {
+					in.custom = func(in *c06Inj, o *verifx.Op, n int) error {
 						if n == k {
 							hit = o
 							cancel()
@@ -456,70 +700,75 @@ func c06RunKind(t *testing.T, rt *rapid.T, rec *verifx.Recorder, txn bool, kind 
 							return context.Canceled
 						}
 						return nil
-					})
-					w.hub.mu.Lock()
-					w.hub.honourCtx = true
-					w.hub.mu.Unlock()
-					callsBefore := len(w.hub.handlerCalls())
-					res := w.requestCtx(kind, cctx)
-					w.tc.rec.SetFault(nil)
-					w.hub.mu.Lock()
-					w.hub.honourCtx = false
-					w.hub.mu.Unlock()
-					what, afterBackend := "none", false
-					if hit != nil {
-						what = hit.Kind + " " + keyClass(hit.Key)
-						for _, c := range w.hub.handlerCalls()[callsBefore:] {
-							if !c.Revoke && c.Enter <= hit.Seq {
-								afterBackend = true
-							}
+					}
+				})
+				w.hub.mu.Lock()
+				w.hub.honourCtx = false
+				w.hub.mu.Unlock()
+				what, afterBackend := "none", false
+				if hit != nil {
+					what = hit.Kind + " " + c06KeyClass(hit.Key)
+					for _, c := range w.hub.handlerCalls()[callsBefore:] {
+						if !c.Revoke && c.Enter <= hit.Seq {
+							afterBackend = true
 						}
 					}
-					detail := map[string]any{"request": kind, "context_cancelled_at_op": k, "of_ops": nOps, "op": what, "result": res.String(), "transactional": txn}
-					rec.Case(kind+":cancel", afterBackend, verifx.Digest(kind, txn, "cancel", k, what), func() any { return detail })
-					if res.ok() {
-						if sig, msg := c06Outcome(w, kind, res); sig != "" {
-							rec.Violation(rt, sig+":after-cancel", detail, "%s (request %s, context cancelled at storage operation %d/%d = %s)", msg, kind, k, nOps, what)
-							return
-						}
+				}
+				detail := map[string]any{"request": kind, "context_cancelled_at_op": k, "of_ops": nOps, "op": what, "result": res.String(), "transactional": txn}
+				rec.Case(kind+":cancel", afterBackend, verifx.Digest(kind, txn, "cancel", k, what), func() any { return detail })
+				if res.ok() {
+					if sig, msg := c06Outcome(w, kind, res); sig != "" {
+						rec.Violation(rt, sig+":after-cancel", detail, "%s (request %s, context cancelled at storage operation %d/%d = %s)", msg, kind, k, nOps, what)
+						return
 					}
-					var sig, msg string
-					for i := 0; i < 200; i++ {
-						sig, msg = w.invariant(tokensBefore)
-						if sig != "secret-without-lease-not-revoked" {
-							break
-						}
-						time.Sleep(5 * time.Millisecond)
+				}
+				var sig, msg string
+				for i := 0; i < 200; i++ {
+					sig, msg = w.invariant(tokensBefore)
+					if sig != "secret-without-lease-not-revoked" {
+						break
 					}
-					// With the request context gone every later storage operation under that context fails too, so the
-					// removal of a half-written lease record cannot be demanded here (that is more than one failing
-					// operation); what must still hold is that nothing generated stays alive untracked and no usable
-					// token lacks a lease.
-					if sig == "secret-without-lease-not-revoked" || sig == "usable-token-without-lease" || sig == "revocation-routed-to-wrong-backend" {
-						rec.Violation(rt, sig+":after-cancel", detail, "%s (request %s returned %v, request context cancelled at storage operation %d/%d = %s)", msg, kind, res, k, nOps, what)
-					}
-				}()
-			}
-		}
-		// crash prefixes of the fault-free request
-		for _, k := range pickKs(nMut-1, verifx.Scale(6, 1<<30)) {
-			n, err := base.tc.restartOn(dryRec.ForkAt(mut0+k, txn))
-			if err != nil {
-				rec.Violation(rt, "crash-prefix-unbootable", map[string]any{"request": kind, "k": k}, "core does not start on the store after %d of %d writes of %s: %v", k, nMut, kind, err)
-				continue
-			}
-			w := &c06World{t: t, tc: n, hub: newRecHub(), parent: base.parent, limTok: base.limTok, batchTok: base.batchTok}
-			func() {
-				defer func() { w.tc.shutdown() }()
-				detail := map[string]any{"request": kind, "crash_after_writes": k, "of_writes": nMut, "last_write": dryRec.MutationKeys(mut0 + k - 1), "transactional": txn}
-				rec.Case(kind+":crash", true, verifx.Digest(kind, txn, "crash", k), func() any { return detail })
-				// nothing was handed out before the crash, so only "no usable token without a lease" is claimed:
-				// a lease record whose index write was cut off by the crash is still tracked to expiry
-				if sig, msg := w.invariant(tokensBefore); sig == "usable-token-without-lease" {
-					rec.Violation(rt, sig+":after-crash", detail, "%s (crash after %d/%d writes of %s, then restart)", msg, k, nMut, kind)
+					time.Sleep(5 * time.Millisecond)
+				}
+				// With the request context gone every later storage operation under that context fails too, so the
+				// removal of a half-written lease record cannot be demanded here (that is more than one failing
+				// operation); what must still hold is that nothing generated stays alive untracked and no usable
+				// token lacks a lease.
+				if sig == "secret-without-lease-not-revoked" || sig == "usable-token-without-lease" || sig == "revocation-routed-to-wrong-backend" {
+					rec.Violation(rt, sig+":after-cancel", detail, "%s (request %s returned %v, request context cancelled at storage operation %d/%d = %s)", msg, kind, res, k, nOps, what)
 				}
 			}()
 		}
+	}
+	// crash prefixes of the fault-free request
+	for _, k := range pickKs(nMut-1, verifx.Scale(6, 1<<30)) {
+		n, err := base.tc.restartOn(dryRec.ForkAt(mut0+k, txn))
+		if err != nil {
+			rec.Violation(rt, "crash-prefix-unbootable", map[string]any{"request": shapeDesc, "k": k}, "core does not start on the store after %d of %d writes of %s: %v", k, nMut, shapeDesc, err)
+			continue
+		}
+		w := &c06World{t: t, tc: n, hub: newRecHub(), parent: base.parent, limTok: base.limTok, batchTok: base.batchTok}
+		func() {
+			defer func() { w.tc.shutdown() }()
+			detail := map[string]any{"request": shapeDesc, "crash_after_writes": k, "of_writes": nMut, "last_write": dryRec.MutationKeys(mut0 + k - 1), "transactional": txn}
+			rec.Case(kind+":crash", true, verifx.Digest(shapeDesc, txn, "crash", k), func() any { return detail })
+			// nothing was handed out before the crash, so only "no usable token without a lease" is claimed:
+			// a lease record whose index write was cut off by the crash is still tracked to expiry
+			if sig, msg := w.invariant(tokensBefore); sig == "usable-token-without-lease" {
+				if w.neverExpiring {
+					// an expiring token without lease is revoked by its first use; a root token that never expires
+					// is accepted without one. Its id was never handed out (the server crashed before the response)
+					sig += ":never-expiring-root-token:after-crash"
+					if len(*deferred) == 0 {
+						*deferred = append(*deferred, func() {
+							rec.Violation(rt, sig, detail, "%s (crash after %d/%d writes of %s, then restart)", msg, k, nMut, shapeDesc)
+						})
+					}
+					return
+				}
+				rec.Violation(rt, sig+":after-crash", detail, "%s (crash after %d/%d writes of %s, then restart)", msg, k, nMut, shapeDesc)
+			}
+		}()
 	}
 }
 
@@ -546,7 +795,11 @@ func pickKsPhase(n, max, phase int) []int {
 // c06Outcome checks what must hold when the client received the credentials.
 func c06Outcome(w *c06World, kind string, r rr) (string, string) {
 	ctx := namespace.RootContext(w.tc.ctx)
-	if strings.HasPrefix(kind, "secret-in-namespace") {
+	inNS := strings.HasPrefix(kind, "secret-in-namespace")
+	if s, ok := c06TokenShapes[kind]; ok && (s.Creator == "ns" || s.Creator == "root-in-ns") {
+		inNS = true
+	}
+	if inNS {
 		ctx = namespace.ContextWithNamespace(context.Background(), w.ns1)
 	}
 	exp := w.tc.c.expiration
@@ -585,7 +838,8 @@ func c06Outcome(w *c06World, kind string, r rr) (string, string) {
 		}
 	}
 	if resp.Auth != nil && resp.Auth.ClientToken != "" && resp.Auth.TokenType != logical.TokenTypeBatch {
-		if !w.tc.tokenAlive(resp.Auth.ClientToken) {
+		usable := w.aliveID(resp.Auth.ClientToken)
+		if !usable {
 			return "token-handed-out-unusable", "client received a service token that is not usable"
 		}
 		te, err := w.tc.c.tokenStore.Lookup(ctx, resp.Auth.ClientToken)
